@@ -12,4 +12,20 @@ def minCostKey (cost : Rat) : Rat := cost
 
 def maxCostKey (cost : Rat) : Rat := (-cost)
 
+def projectLt (a b : Rat) : Bool := (decide (a < b))
+
+def projectLtName (a b : Rat) : Bool := (decide (a < b))
+
+def projectLe (a b : Rat) : Bool := (decide (a ≤ b))
+
+def projectLeName (a b : Rat) : Bool := (decide (a ≤ b))
+
+def projectEq (a b : Rat) : Bool := (decide (a = b))
+
+def projectEqName (a b : Rat) : Bool := (decide (a = b))
+
+def projectEqOther  : Bool := false
+
+def projectHash (h : Rat → Rat) (a : Rat) : Rat := (h a)
+
 end Gen.C13
